@@ -562,6 +562,38 @@ def _reachable(repo: Repo) -> List[ast.AST]:
     return list(seen.values())
 
 
+def _value_free(repo: Repo) -> Set[str]:
+    """module-level functions of solver.py that can never see a variable, a candidate or a model value: at every call from reachable
+    code their arguments are only the `backend` argument of the entry point, constants, `config.<attr>`, or parameters of a function
+    that is itself value-free (backend selection: which class is used is C20's business, not the refinement loop's)"""
+    mod = repo.mod(SOLVER)
+    entry = mod.funcs.get("Solver.solve")
+    free_names = {a.arg for a in entry.args.args if a.arg != "self"} if entry is not None else set()
+    cand = {q for q in mod.funcs if "." not in q}
+    calls: Dict[str, List[Tuple[str, ast.Call]]] = {q: [] for q in cand}
+    for q, f in mod.funcs.items():
+        for n in ast.walk(f):
+            if isinstance(n, ast.Call) and isinstance(n.func, ast.Name) and n.func.id in cand:
+                calls[n.func.id].append((q, n))
+    vf: Set[str] = set(q for q in cand if calls[q])
+    changed = True
+    while changed:
+        changed = False
+        for q in sorted(vf):
+            for caller, call in calls[q]:
+                ok_names = set(free_names) if caller == "Solver.solve" or caller.startswith("Solver.") else set()
+                if caller in vf:
+                    ok_names = {a.arg for a in mod.funcs[caller].args.args}
+                fine = all(
+                    isinstance(a, ast.Constant) or (isinstance(a, ast.Name) and a.id in ok_names) or (dotted(a) or "").startswith("config.")
+                    for a in list(call.args) + [k.value for k in call.keywords])
+                if not fine:
+                    vf.discard(q)
+                    changed = True
+                    break
+    return vf
+
+
 def _int_constants(repo: Repo) -> Set[int]:
     out: Set[int] = set()
     for f in _reachable(repo):
@@ -647,7 +679,8 @@ def check_vocabulary(repo: Repo, rep: Report) -> List[str]:
     Returns the list of constructs outside the vocabulary (empty = uniform)."""
     bad: List[str] = []
     mod = repo.mod(SOLVER)
-    funcs = _reachable(repo)
+    skip = {mod.funcs[q] for q in _value_free(repo)}
+    funcs = [f for f in _reachable(repo) if f not in skip]
     local_funcs = {q.split(".")[-1] for q in mod.funcs}
     helpers = _local_classes(repo)
     helper_methods = {m for ms in helpers.values() for m in ms}
